@@ -113,7 +113,8 @@ def conditions(tier):
         for fx in partitions(parts):
             nm = f'find_d{depth}_' + ''.join(str(int(x)) for x in fx.values())
             cs.append(make_cond(
-                nm, make_chain(depth, 3 if full else 2), run_find, judge_find, fx, timeout=300, group='M-find',
+                nm, make_chain(depth, 3 if full else 2), run_find, judge_find, fx,
+                timeout=1500 if full else 300, group='M-find',
                 twin=(all(fx[f'p{k}'] for k in range(depth + 1))
                                   and fx['allow_xdev'] and fx['boundary'] == 0),
                 descr=f'real find_top_level_manifest from depth {depth} on the model; per '
